@@ -170,6 +170,7 @@ def _child_geometry(rep, rule, clsname, path, line, rd, kw, cap):
             continue
         vol = Fraction(0)
         bad = None
+        cells_v = []
         for ci, c in enumerate(children):
             vs = []
             for r in c.rows:
@@ -206,9 +207,15 @@ def _child_geometry(rep, rule, clsname, path, line, rd, kw, cap):
                 if bad:
                     break
                 vol += Fraction(1, 2 ** rd.dim)
+            cells_v.append(vs)
         if bad is None and vol != ref_volume(rd):
             bad = f"children's volumes add up to {vol}, the parent has " \
                   f"{ref_volume(rd)}"
+        if bad is None:
+            from ..refcell import first_overlap
+            ov = first_overlap(cells_v)
+            if ov:
+                bad = f"children {ov[0]} and {ov[1]} overlap"
         if bad is None and rd.name in ("RefQuad", "RefHex"):
             origins = {tuple(resolve(rd, pts, c.rows[
                 rd.p.index(tuple(Fraction(0) for _ in range(rd.dim)))]))
